@@ -412,11 +412,9 @@ def resolve_strategy_remove_outputs(base_path, outputs, decisions):
         else:
             # Replace all decisions affecting key with resolution
             local_diff, remote_diff = collect_diffs(base_path, decs)
-            if (
-                len(local_diff) == len(remote_diff) == 1 and
-                local_diff[0].op == remote_diff[0].op == DiffOp.ADDRANGE
-            ):
-                # remove in add vs add is a no-op
+            if all(e.op == DiffOp.ADDRANGE for e in local_diff + remote_diff):
+                # remove in add vs add is a no-op (there is no base output
+                # at an index where both sides only insert)
                 custom_diff = []
             else:
                 custom_diff = [op_removerange(key, 1)]
